@@ -123,3 +123,32 @@ def mps_canonical(fmt, xr):
     return ite(xr._c == 0, xr._exp == mps_expmin(fmt),
                xr._exp >= mps_expmin(fmt) and xr._c < pow2(fmt.pmax)
                and (xr._exp == mps_expmin(fmt) or xr._c >= pow2(fmt.pmax - 1)))
+
+
+# ---------------------------------------------------------------------------
+# MPBFixedFormat(nmin, pos_maxval, neg_maxval, ...): the MP fixed-point members v with
+# neg_maxval <= v <= pos_maxval (plus NaN / infinities by the enable flags)
+
+@invariant('fpy2.number.context.mpb_fixed:MPBFixedFormat')
+def inv_MPBFixedFormat(f):
+    """established by MPBFixedFormat.__init__ (contract MPBFixedFormat___init__)"""
+    return (f._mp_fmt.nmin == f.nmin and f._mp_fmt.enable_nan == f.enable_nan and f._mp_fmt.enable_inf == f.enable_inf
+            and (f.pos_maxval._c == 0 or not f.pos_maxval._s)
+            and (f.neg_maxval._c == 0 or f.neg_maxval._s))
+
+
+def mpbfx_ords(f):
+    """the cached ordinals of the bounds (also established by __init__; a precondition where it is used)"""
+    return (mult_of(f.pos_maxval, f.nmin + 1) and mult_of(f.neg_maxval, f.nmin + 1)
+            and f._pos_maxval_ord == fx_ord(f._mp_fmt, f.pos_maxval)
+            and f._neg_maxval_ord == fx_ord(f._mp_fmt, f.neg_maxval))
+
+
+def in_bounds(xr, lo, hi):
+    """lo <= x <= hi as real numbers"""
+    return not dy_lt(xr, lo) and not dy_lt(hi, xr)
+
+
+def mpbfx_inF(fmt, x):
+    xr = real_of(x)
+    return fx_inF(fmt._mp_fmt, x) and (not x_finite(x) or xr._c == 0 or in_bounds(xr, fmt.neg_maxval, fmt.pos_maxval))
